@@ -236,6 +236,8 @@ class World(object):
         self.hold_async = bool(case.get('hold_async'))
         self.async_order = list(case.get('async_order') or [])
         self.async_task_of = {}
+        self.async_item_of = {}
+        self.async_item_order = list(case.get('async_item_order') or [])
 
     # ------------------------------------------------------------------
     def setup(self):
@@ -469,6 +471,7 @@ class World(object):
             return vactions.make_result(outcome)
         with self.lock:
             self.async_task_of[action_ex_id] = action.t
+            self.async_item_of[action_ex_id] = action.i
             if outcome[0] == 'never':
                 self.withheld.add(action_ex_id)
             else:
@@ -596,9 +599,13 @@ class World(object):
                 return False
             order = self.async_order or []
 
+            iorder = self.async_item_order
+
             def prio(item):
                 t = self.async_task_of.get(item[0])
-                return order.index(t) if t in order else len(order)
+                i = self.async_item_of.get(item[0])
+                return (order.index(t) if t in order else len(order),
+                        iorder.index(i) if i in iorder else len(iorder))
             best = min(range(len(self.pending_async)),
                        key=lambda i: (prio(self.pending_async[i]), i))
             action_ex_id, outcome = self.pending_async.pop(best)
